@@ -312,6 +312,14 @@ def random_pair(rng):
         b = {'k': 'num', 'n': a['n'] + rng.choice([-1, 0, 1]), 'd': a['d']}
     if kind == 'text' and rng.random() < 0.2:
         b = a
+    elif kind == 'text' and rng.random() < 0.25:
+        # one number in two spellings (both pass int() / float() of the coercion ladder, so the clock-dependent date parser is not reached)
+        t = str(rng.randint(-30, 30)) if rng.random() < 0.6 else f'{rng.randint(-30, 30)}.{rng.randint(0, 9)}'
+        u = rng.choice([t + ('0' if '.' in t else '.0'), ('-0' + t[1:]) if t[0] == '-' else '0' + t, t + 'e0', ' ' + t, t + ' ',
+                        t + ('' if '.' in t else '.'), t.replace('-', '-00') if t[0] == '-' else '+' + t])
+        a, b = {'k': 'text', 'c': [ord(ch) for ch in t]}, {'k': 'text', 'c': [ord(ch) for ch in u]}
+        if rng.random() < 0.5:
+            a, b = b, a
     return a, b
 
 
